@@ -59,7 +59,8 @@ def cacheOf (j : Option Json) : R Cache := do
   let rows ← match j with
     | none => pure []
     | some v => (← arr v).mapM fun e => do
-        pure ((← bytesF e "cid"), (← strF e "ident"), (⟨← strF e "method", ← bodyOf (← field e "body")⟩ : CacheEntry))
+        pure ((← bytesF e "cid"), (← strF e "ident"),
+          ((← intF e "exp"), (⟨← strF e "method", ← bodyOf (← field e "body")⟩ : CacheEntry)))
   pure fun cid s => (rows.find? (fun r => r.1 == cid && r.2.1 == s)).map (·.2.2)
 
 def shapeOf (a : Json) : R Shape := do
@@ -74,6 +75,7 @@ def handle (fn : String) (a : Json) : R Json := do
   | "aad" => pure (ofBytes (aad (← identity (← field a "who"))))
   | "callAad" =>
     pure (ofBytes (callAad (← shapeOf a).methodBound (← strF a "method") (← identity (← field a "who"))))
+  | "cacheDeadline" => pure (ofInt (cacheDeadline (← natF a "ttl") (← natF a "created") (← intF a "now")))
   | "cacheIdent" => pure (ofStr (cacheIdent (← identity (← field a "who"))))
   | "packCursor" => pure (ofBytes (packCursorPlain (← natF a "t") (← bytesF a "cid") (← bytesF a "st")))
   | "unpackCursor" =>
@@ -92,7 +94,7 @@ def handle (fn : String) (a : Json) : R Json := do
         (← intF a "now") (← obs (← field a "obs"))))
   | "openCall" =>
     let sh ← shapeOf a
-    pure (resJson (fun (x : Bytes × CallBody) => ofList [ofBytes x.1, bodyJson x.2])
+    pure (resJson (fun (x : Bytes × CallBody × Nat) => ofList [ofBytes x.1, bodyJson x.2.1])
       (openCallObs sh.strictB64 (← zstdOf (fieldOpt a "zstd")) (← natF a "key") (← bytesF a "aad") (← natF a "ttl")
         (← intF a "now") (← obs (← field a "obs"))))
   | "recover" =>
@@ -110,7 +112,7 @@ def handle (fn : String) (a : Json) : R Json := do
     pure (obj [("effects", ofList (effs.map (fun e => Json.str (effectName e)))),
                ("result", resJson (fun (x : Accepted) =>
                   obj [("state", ofBytes x.state), ("callId", ofBytes x.callId), ("method", ofStr x.entry.method),
-                       ("body", bodyJson x.entry.body), ("hit", ofBool x.hit)]) res)])
+                       ("body", bodyJson x.entry.body), ("hit", ofBool x.hit), ("created", ofNat x.created)]) res)])
   | "response" =>
     let site ← rawStr (← field a "site")
     match Reject.all.find? (fun r => r.site == site) with
